@@ -389,18 +389,19 @@ theorem mapConform_of_all (env : Env) (O : Oracle) (item : Field) (g : PVal → 
         (ih es hr (fun y hy => hc y (List.mem_cons_of_mem _ hy)))
 
 /-- the round trip of a root message, given the induction's facts at fuel `F` -/
-theorem root_of_RTP (c : Cfg) (hs : c.env.flat = true) (root : String) (m : Fields)
+theorem root_of_RTP' (c : Cfg) (hs : c.env.flat = true) (root : String) (m : Fields)
     (hok : valOk c.env c.O (.object root) (.msg m) = true ∨ valOk c.env c.O (.oneof root) (.msg m) = true)
     (F : Nat) (R : RTP c F) (hF : 5 * depthFields m + 5 ≤ F)
     (hM : modeOkF c.protoToAny F c.anyDepth m = true) :
-    ∃ t, encRoot c.env c.O (F + 1) root (.msg m) = .ok t ∧ decRootTree c root t = .ok m := by
+    ∃ t, encRoot c.env c.O (F + 1) root (.msg m) = .ok t ∧ decRootTree c root t = .ok m ∧
+      (OracleWire c.O → Wire.RootConforms c.env c.O root m t) := by
   rcases hok with hok | hok
   · obtain ⟨fs, props, hv, hfind, hsort, hfok, hgrp, hexp⟩ := valOk_object _ _ root _ hok
     cases hv
-    obtain ⟨ms, S, henc, hdec, _⟩ := R.obj props m
+    obtain ⟨ms, S, henc, hdec, hcf⟩ := R.obj props m
       (find_rootFlat c.env hs root _ hfind) (find_names_utf8' c.env hs root props (Or.inl hfind))
       hsort hfok hgrp hexp (by omega) hM
-    refine ⟨.obj ms, ?_, ?_⟩
+    refine ⟨.obj ms, ?_, ?_, fun W => Or.inl ⟨props, ms, hfind, rfl, hcf W⟩⟩
     · show encRoot c.env c.O (F + 1) root (.msg m) = .ok (.obj ms)
       simp only [encRoot, hfind]; exact henc
     · simp [decRootTree, hfind, hdec, finishObject, closeOk]
@@ -415,7 +416,13 @@ theorem root_of_RTP (c : Cfg) (hs : c.env.flat = true) (root : String) (m : Fiel
       simp only [encRoot, hfind]
     show ∃ t, encRoot c.env c.O (F + 1) root (.msg m) = .ok t ∧ _
     rw [henc]
-    generalize encOneofBody c.env c.O F ops m = r at hshape
+    have hconf : OracleWire c.O → ∀ t, encOneofBody c.env c.O F ops m = .ok t →
+        Wire.RootConforms c.env c.O root m t := by
+      intro W t ht
+      obtain ⟨t', ht', hoc⟩ := oneofConforms_of_shape c ops m _ hroot W hshape
+      rw [ht] at ht'; cases ht'
+      exact Or.inr ⟨ops, hfind, hoc⟩
+    generalize encOneofBody c.env c.O F ops m = r at hshape hconf
     cases hshape with
     | empty hnil =>
       have hfs : m = [] := by
@@ -430,15 +437,25 @@ theorem root_of_RTP (c : Cfg) (hs : c.env.flat = true) (root : String) (m : Fiel
           have := filter_nil_unset ops _ hnil p hp k0 hpk
           simp [aget] at this
       subst hfs
-      exact ⟨_, rfl, by simp [decRootTree, hfind, decOneofMembers, finishOneof, oneofPost, closeOk, applyPost]⟩
+      exact ⟨_, rfl, by simp [decRootTree, hfind, decOneofMembers, finishOneof, oneofPost, closeOk, applyPost],
+        fun W => hconf W _ rfl⟩
     | one q k v tlit nlit qlit tv hone hq hqk hag hdec hcf hz hec =>
       have hfs : m = [(k, v)] := single_store m k v hlen hag
       obtain ⟨hloop, hpost⟩ := decOneof_one c ops hroot q k v tlit nlit qlit tv [] hq hqk hdec hz hec rfl
         (fun _ _ _ _ _ => rfl)
-      refine ⟨_, rfl, ?_⟩
+      refine ⟨_, rfl, ?_, fun W => hconf W _ rfl⟩
       have : aset k v ([] : Fields) = m := by rw [hfs]; rfl
       rw [this] at hloop hpost
       simp [decRootTree, hfind, hloop, finishOneof, closeOk, hpost, applyPost]
+
+/-- the round trip of a root message, given the induction's facts at fuel `F` -/
+theorem root_of_RTP (c : Cfg) (hs : c.env.flat = true) (root : String) (m : Fields)
+    (hok : valOk c.env c.O (.object root) (.msg m) = true ∨ valOk c.env c.O (.oneof root) (.msg m) = true)
+    (F : Nat) (R : RTP c F) (hF : 5 * depthFields m + 5 ≤ F)
+    (hM : modeOkF c.protoToAny F c.anyDepth m = true) :
+    ∃ t, encRoot c.env c.O (F + 1) root (.msg m) = .ok t ∧ decRootTree c root t = .ok m := by
+  obtain ⟨t, h1, h2, _⟩ := root_of_RTP' c hs root m hok F R hF hM
+  exact ⟨t, h1, h2⟩
 
 
 theorem RTP_val (c : Cfg) (hs : c.env.flat = true) (L : OracleLaws c.O) (f : Nat)
@@ -540,7 +557,8 @@ theorem RTP_val (c : Cfg) (hs : c.env.flat = true) (L : OracleLaws c.O) (f : Nat
       have hmode : c.protoToAny = false := by simpa [modeOk] using hM
       obtain ⟨tlit, nlit, vlit, he⟩ := enc_any_j5 c.env c.O f tn [] j5 .none "" (.msg []) hj hu
       rw [chunkNode_some c.O j5 V hch hr] at he
-      refine ⟨_, he, ?_, fun _ => Wire.Conforms.any false _ tn tlit nlit vlit V rfl⟩
+      refine ⟨_, he, ?_, fun _ => Wire.Conforms.anyJ5 tn [] j5 .none "" (.msg []) tlit nlit vlit V
+        hj hr⟩
       have := Dec_any c hmode tn tlit nlit vlit V hc hd'
       rw [hr] at this; exact this
     | true =>
@@ -551,7 +569,7 @@ theorem RTP_val (c : Cfg) (hs : c.env.flat = true) (L : OracleLaws c.O) (f : Nat
       obtain ⟨F, rfl⟩ : ∃ F, f = F + 1 := ⟨f - 1, by omega⟩
       have hMi' : modeOkF c.protoToAny F (c.anyDepth + 1) fs = true :=
         modeOkF_anti c.protoToAny (F + 1 + 1) F (by omega) fs _ (by simpa [modeOk] using hMi)
-      obtain ⟨data, henc, hdec⟩ := root_of_RTP { c with anyDepth := c.anyDepth + 1 } hs iroot fs hiok F
+      obtain ⟨data, henc, hdec, hrc⟩ := root_of_RTP' { c with anyDepth := c.anyDepth + 1 } hs iroot fs hiok F
         (ihD F (by omega)) (by omega) hMi'
       have hn5 : (PVal.msg fs).noJ5 = true := by
         have hMt : modeOkF true F (c.anyDepth + 1) fs = true := by
@@ -564,10 +582,11 @@ theorem RTP_val (c : Cfg) (hs : c.env.flat = true) (L : OracleLaws c.O) (f : Nat
       obtain ⟨tlit, nlit, vlit, he⟩ := enc_any_pb c.env c.O F (anyPrefixB ++ tn) [] iroot (.msg fs) data
         henc (by rw [show anyPrefixB = anyPrefix from rfl, trimPrefix_append]; exact hu)
       rw [show anyPrefixB = anyPrefix from rfl, trimPrefix_append] at he
-      refine ⟨_, he, ?_, fun _ => Wire.Conforms.any true _ tn tlit nlit vlit data ?_⟩
+      refine ⟨_, he, ?_, fun W => ?_⟩
       · exact Dec_anyPb c hmode hdepth tn tlit nlit vlit data iroot fs hcc (by omega) hres hdec hne
-      · simp only [Wire.anyTypeName]
-        exact congrArg some (trimPrefix_append _ tn)
+      · rcases hrc W with ⟨props, ms, hfind, rfl, hmc⟩ | ⟨ops, hfind, hoc⟩
+        · exact Wire.Conforms.anyPbObj [] tn iroot fs props tlit nlit vlit ms hres hfind hmc
+        · exact Wire.Conforms.anyPbOne [] tn iroot fs ops tlit nlit vlit data hres hfind hoc
   | array item =>
     obtain ⟨xs, rfl, hlok⟩ := valOk_array _ _ item v hok
     have hi : itemSimple item = true := by simpa [fieldSimple] using hfs
